@@ -241,6 +241,57 @@ def mask_rand(sql):
     return _RAND_RE.sub(r'\1<R>', sql or '')
 
 
+def canon_and(text):
+    """the SQL text with the conjuncts of every AND chain sorted (nested chains flattened)"""
+    toks = []
+    for k, v, q in I.sql_tokens(text):
+        toks.append('"' + v + '"' if (k == 'id' and q) else v)
+    n = len(toks)
+
+    class AndGroup(list):
+        pass
+
+    def parse(i):
+        items = []
+        while i < n:
+            t = toks[i]
+            if t == '(':
+                sub, i = parse(i + 1)
+                items.append(sub)
+            elif t == ')':
+                return items, i + 1
+            else:
+                items.append(t)
+                i += 1
+        return items, i
+
+    def canon(node):
+        parts = [canon(x) if isinstance(x, list) and not isinstance(x, AndGroup) else x for x in node]
+        if 'AND' in [p for p in parts if isinstance(p, str)]:
+            conj, cur = [], []
+            for p in parts + ['AND']:
+                if isinstance(p, str) and p == 'AND':
+                    if len(cur) == 1 and isinstance(cur[0], AndGroup):
+                        conj += list(cur[0])
+                    else:
+                        conj.append(' '.join(render(c) for c in cur))
+                    cur = []
+                else:
+                    cur.append(p)
+            return AndGroup(sorted(conj))
+        return parts
+
+    def render(x):
+        if isinstance(x, AndGroup):
+            return '(' + ' AND '.join(x) + ')'
+        if isinstance(x, list):
+            return '(' + ' '.join(render(y) for y in x) + ')'
+        return x
+    tree, _ = parse(0)
+    c = canon(tree)
+    return render(c) if isinstance(c, AndGroup) else ' '.join(render(y) for y in c)
+
+
 def obs_key(r, masked=True):
     """what is byte-compared between two compilations: SQL text, argument map, descriptors"""
     sql = r.get('sql') or ''
